@@ -286,7 +286,10 @@ def _update_opset_imports(
     graph_or_function: ir.Graph | ir.Function, delta: ReplacementSubgraph
 ):
     imports = graph_or_function.opset_imports
-    for domain, version in delta.used_opsets:
+    # Sorted: the order of the opset imports must not depend on the iteration order of a set.
+    for domain, version in sorted(
+        delta.used_opsets, key=lambda opset: (opset[0], -1 if opset[1] is None else opset[1])
+    ):
         if domain not in imports:
             # use 1 as default version if not explicitly specified
             imports[domain] = version if version is not None else 1
